@@ -634,3 +634,7 @@ Proof.
     destruct HF as (F1 & F2 & F3).
     exact (cf_main_sound f q w lo hi L Hw Hq ltac:(lia) F1 F2 F3).
 Qed.
+
+Print Assumptions cf_run.
+Print Assumptions cf_main_sound.
+Print Assumptions cf_driver.
